@@ -342,6 +342,12 @@ func mainErr(args []string) error {
 // Note that it uses and modifies global state; in general, it should only be
 // called once from mainErr in the top-level garble process.
 func toolexecCmd(command string, args []string) (*exec.Cmd, error) {
+	// Our callers remove the directory named by GARBLE_SHARED once we return,
+	// whether we succeed or fail. Forget any value inherited from the environment,
+	// such as when garble is run by a test or tool of a garble build,
+	// so that we only ever remove a directory which we created below.
+	os.Unsetenv("GARBLE_SHARED")
+
 	// Split the flags from the package arguments, since we'll need
 	// to run 'go list' on the same set of packages.
 	flags, args := splitFlagsFromArgs(args)
